@@ -1,7 +1,7 @@
 ---------------------------- MODULE Trace_Regex ----------------------------
 (* Per-call obligations about regular expressions on traces of the real     *)
 (* crate: every record carries the construction AST of its term(s).         *)
-EXTENDS TraceBase, Regex
+EXTENDS TraceBase, Constructors
 
 RunOk(t, w, r) == r = Accepts(t, w)
 
@@ -84,6 +84,10 @@ Bad(e) ==
     [] e.op = "incl" ->
          Failed({<<"C16:included_in_sound", e.res => SubLang(Core(e.a), Core(e.b))>>,
                  <<"C16:reflexive", e.same => e.res>>,
+                 \* the answer is the one the transcribed test (Constructors!SubLangN) gives on the trees of the two
+                 \* real terms - an internal specification: NOTE level
+                 <<"RULES:included_in_as_modelled",
+                    Len(e.shapes) = 2 => e.res = SubLangN(Cn(e.shapes[1]), Cn(e.shapes[2]))>>,
                  \* the union of the two terms (pruned with the same test) loses no string
                  <<"C16:union_keeps_all_strings",
                     Len(e.uwords) > 0 =>
